@@ -78,7 +78,9 @@ func c02Node2() *corev1Node { return c01NodeObjCap("n2", c01Vec{3, 5}) }
 
 func (s *c02TreeSys) Invariants() (viol []mc.Violation) {
 	if os.Getenv("C02_DEBUG") != "" && strings.HasPrefix(s.last, "refreshRuntime") {
-		defer func() { fmt.Printf("DEBUG hist-end %s viol=%d quotas=%v nodes=%v\n", s.last, len(viol), s.liveQuotas(), s.nodes) }()
+		defer func() {
+			fmt.Printf("DEBUG hist-end %s viol=%d quotas=%v nodes=%v\n", s.last, len(viol), s.liveQuotas(), s.nodes)
+		}()
 	}
 	after := strings.SplitN(s.last, "(", 2)[0]
 	fresh := s.freshManager()
